@@ -85,14 +85,23 @@ func (p c15) cut(c *fw.Ctx, prefix, why string) {
 
 // chunks evaluates a script at once and in chunks.
 func (p c15) chunks(c *fw.Ctx, stmts []string, split []bool) {
+	p.chunksJoined(c, stmts, split, ";\n")
+}
+
+// chunksJoined: sep is what joins the statements of one chunk (and of the whole script).
+func (p c15) chunksJoined(c *fw.Ctx, stmts []string, split []bool, sep string) {
 	c.Eval(1)
+	timedOut := false // an evaluation that hit the harness's own deadline decides nothing
 	run := func(inputs []string) (string, string, bool) {
 		ss := newSession(false)
 		var out strings.Builder
 		failed := false
 		for _, in := range inputs {
-			o := ss.eval(in, 3*time.Second)
+			o := ss.eval(in, 10*time.Second)
 			out.WriteString(o.printed)
+			if o.timedOut {
+				timedOut = true
+			}
 			if o.isErr || o.panicked != "" {
 				failed = true
 			}
@@ -101,11 +110,15 @@ func (p c15) chunks(c *fw.Ctx, stmts []string, split []bool) {
 		_, _ = ss.s.SaveGlobals(&buf)
 		return out.String(), buf.String(), failed
 	}
-	once := strings.Join(stmts, ";\n")
+	once := strings.Join(stmts, sep)
 	o1, g1, f1 := run([]string{once})
+	if timedOut {
+		c.Count("timeouts_skipped", 1)
+		return
+	}
 	if f1 {
 		// evaluating at once fails: if feeding the statements one by one succeeds, the two ways disagree
-		if _, _, fAll := run(stmts); !fAll {
+		if _, _, fAll := run(stmts); !fAll && !timedOut {
 			c.Violate("at-once-error", "chunks:at-once-error", c15Case{Kind: "chunks", Chunks: stmts}, "the script fails when evaluated at once but succeeds statement by statement")
 			return
 		}
@@ -119,7 +132,7 @@ func (p c15) chunks(c *fw.Ctx, stmts []string, split []bool) {
 			chunks = append(chunks, cur)
 			cur = stmts[i]
 		} else {
-			cur += ";\n" + stmts[i]
+			cur += sep + stmts[i]
 		}
 	}
 	chunks = append(chunks, cur)
@@ -127,6 +140,10 @@ func (p c15) chunks(c *fw.Ctx, stmts []string, split []bool) {
 		c.ShapeH(fnv64(strings.Join(chunks, "\x01")))
 	}
 	o2, g2, f2 := run(chunks)
+	if timedOut {
+		c.Count("timeouts_skipped", 1)
+		return
+	}
 	cs := c15Case{Kind: "chunks", Chunks: chunks}
 	switch {
 	case f2:
@@ -255,6 +272,35 @@ func (p c15) RunBatch(c *fw.Ctx) {
 		for _, ms := range c15MacroScripts {
 			p.allSplits(c, ms)
 		}
+	}
+	// the shipped example and test programs fed the way the REPL reads a file: line by line, a chunk being complete
+	// when line mode no longer asks for more input; the whole file at once must give the same output and globals
+	for fi, src := range corpusPrograms() {
+		if fi%c.NBatches != c.Batch {
+			continue
+		}
+		var chunks []string
+		cur := ""
+		for _, line := range strings.Split(src, "\n") {
+			cur += line + "\n"
+			if r := parseSrc(cur, true); r.cont {
+				continue
+			}
+			if strings.TrimSpace(cur) != "" {
+				chunks = append(chunks, strings.TrimRight(cur, "\n"))
+			}
+			cur = ""
+		}
+		if len(chunks) < 2 || len(chunks) > 400 {
+			continue
+		}
+		split := make([]bool, len(chunks)-1)
+		for i := range split {
+			split[i] = true
+		}
+		c.Begin(c15Case{Kind: "chunks", Chunks: chunks})
+		p.chunksJoined(c, chunks, split, "\n")
+		c.Count("corpus_scripts", 1)
 	}
 }
 
